@@ -6,6 +6,7 @@ package main
 // behaviours; every physical attempt's received body is recorded.
 
 import (
+	"net"
 	"bytes"
 	"context"
 	"errors"
@@ -62,6 +63,8 @@ func (rt *scriptedRT) RoundTrip(req *http.Request) (*http.Response, error) {
 		return nil, timeoutErr{}
 	case tok == "E":
 		return nil, errNet
+	case tok == "N":
+		return nil, &net.OpError{Op: "read", Net: "tcp", Err: errNet}
 	case tok == "401b":
 		r := mk(401)
 		r.Header.Set("Www-Authenticate", `Basic realm="x"`)
@@ -112,7 +115,8 @@ func runC17(seed int64, tier string, sc *Script) map[string]any {
 		n = 60000
 	}
 	unit := time.Microsecond
-	toks := []string{"200", "404", "503", "500", "429:ra1", "408", "401b", "401B", "T", "E", "201", "502"}
+	// "E": a plain transport error; "N": a net.Error that is not a timeout (connection reset)
+	toks := []string{"200", "404", "503", "500", "429:ra1", "408", "401b", "401B", "T", "E", "N", "201", "502"}
 	evals := 0
 	sc.Case("stack-scripts")
 	sc.NonTrivial()
